@@ -110,6 +110,15 @@ def compare_case(P, case, impl_lines, crash, model_lines):
             r = cmp(case, i, il, m, s, tags)
             if r is not None:
                 divs.append(Div(r[0], case, i, il, m, s, tags, r[1]))
+                if r[0] == "model":
+                    # correspondence broke: look further down this case for a line that contradicts the specification
+                    for j in range(i + 1, min(n, len(impl_lines), len(model_lines))):
+                        mj, sj, tj, _ = parse_model_line(model_lines[j])
+                        rj = cmp(case, j, impl_lines[j], mj, sj, tj)
+                        if rj is not None and rj[0] in ("spec", "crash") and sj not in ("", "*"):
+                            divs.insert(0, Div(rj[0], case, j, impl_lines[j], mj, sj, tj,
+                                               rj[1] + " (after the correspondence with the model broke at line %d)" % i))
+                            break
                 break
             continue
         if s != "" and s != "*" and spec_part(il) != s:
@@ -120,6 +129,19 @@ def compare_case(P, case, impl_lines, crash, model_lines):
             # implementation and model breaks the correspondence, not (by itself) the property
             kind = "spec" if (spec_part(il) != spec_part(m) and s in ("", "*") and getattr(P, "MODEL_IS_SPEC", False)) else "model"
             divs.append(Div(kind, case, i, il, m, s, tags, "implementation differs from the Lean model"))
+            if kind == "model":
+                # the correspondence broke here; the specification is computed from the op lines alone, so keep
+                # looking in the rest of this case for a line on which the implementation contradicts it - that
+                # is a failing input for the property and is reported first
+                for j in range(i + 1, min(n, len(impl_lines), len(model_lines))):
+                    mj, sj, tj, _ = parse_model_line(model_lines[j])
+                    if sj not in ("", "*") and spec_part(impl_lines[j]) != sj:
+                        divs.insert(0, Div("spec", case, j, impl_lines[j], mj, sj, tj,
+                                           "implementation differs from the specification (after the correspondence with the model broke at line %d)" % i))
+                        break
+                else:
+                    if len(impl_lines) < n and crash:
+                        divs.insert(0, Div("crash", case, len(impl_lines), "<no output>", "", "", [], crash))
             break
     else:
         if crash:
